@@ -201,6 +201,7 @@ ARGS_LOOP:
 			{
 				if strings.HasPrefix(iterator.Value(), "-") {
 					var lastOpt *option.Option
+					lastOptStem := "" // completion entry of the last option that expects an argument
 
 					// Options are stored without leading dashes, remove them to compare
 					// TODO: Also remove the / when dealing with windows.
@@ -218,7 +219,8 @@ ARGS_LOOP:
 						if strings.HasPrefix(k, partialOption) {
 							lastOpt = v
 							if currentProgramNode.ChildOptions[k].OptType != option.BoolType {
-								completions = append(completions, "--"+k+`=`)
+								lastOptStem = "--" + k + `=`
+								completions = append(completions, lastOptStem)
 							} else {
 								completions = append(completions, "--"+k)
 							}
@@ -263,7 +265,7 @@ ARGS_LOOP:
 					// extra completion so there is no trailing space automatically
 					// inserted by bash.
 					// This extra completion has nice documentation on what the option expects.
-					if len(completions) == 1 && strings.HasSuffix((completions)[0], "=") {
+					if len(completions) == 1 && lastOptStem != "" && completions[0] == lastOptStem {
 						if lastOpt.SuggestedValues != nil && len(lastOpt.SuggestedValues) > 0 {
 							for _, e := range lastOpt.SuggestedValues {
 								completions = append(completions, completions[0]+e)
